@@ -383,6 +383,8 @@ def run(ctx: Ctx) -> None:
     rng = ctx.rng
     N = ctx.n(300, 3000)
     for i in range(N):
+        if ctx.out_of_time():
+            break
         prog, counts = pg.gen_history(rng, big=ctx.thorough, rewrites=INCLUDE_REWRITES)
         stats: dict = {}
         probs = run_case(ctx, prog, sample_pts=ctx.n(3, 5), stats=stats)
@@ -410,6 +412,8 @@ def run(ctx: Ctx) -> None:
                 ctx.notes.append("stopped early: 8 failing histories")
                 break
     for _ in range(ctx.n(80, 800)):
+        if ctx.out_of_time():
+            break
         probe(ctx, rng)
         ctx.evaluations += 1
 
